@@ -769,6 +769,29 @@ func (h *c08hist) genOp() (ref.Instr, bool) {
 			return ref.Instr{Op: "patch", In: []int{x, same()}, Index: idx}, true
 		}
 		if rank >= 1 && len(v.Data) <= 12 {
+			// a partner whose extent along the concat dimension DIFFERS, when there is one (blocks of unequal size)
+			for _, j := range us {
+				w := h.nodes[j].val
+				if len(w.Shape) != rank || len(w.Data) > 24 {
+					continue
+				}
+				diff := -1
+				for d := range w.Shape {
+					if w.Shape[d] != v.Shape[d] {
+						if diff >= 0 {
+							diff = -2
+							break
+						}
+						diff = d
+					}
+				}
+				if diff >= 0 && r.Intn(2) == 0 {
+					if r.Intn(2) == 0 {
+						return ref.Instr{Op: "concat", In: []int{j, x}, Dim: diff}, true
+					}
+					return ref.Instr{Op: "concat", In: []int{x, j}, Dim: diff}, true
+				}
+			}
 			return ref.Instr{Op: "concat", In: []int{x, same()}, Dim: r.Intn(rank)}, true
 		}
 		return ref.Instr{Op: "exp", In: []int{x}}, maxAbs(v) < 3
